@@ -21,6 +21,7 @@ import (
 	"sort"
 	"strconv"
 	"strings"
+	"unicode"
 )
 
 const filename = "Casketfile"
@@ -137,7 +138,10 @@ func jsonToText(scope interface{}, depth int) string {
 
 	switch val := scope.(type) {
 	case string:
-		if strings.ContainsAny(val, "\" \n\t\r") {
+		// quote what the lexer would not read back as one token with this text:
+		// the empty string, a leading quote, white space or '#' anywhere
+		if val == "" || val[0] == '"' || strings.ContainsRune(val, '#') ||
+			strings.IndexFunc(val, unicode.IsSpace) >= 0 {
 			result += `"` + strings.Replace(val, "\"", "\\\"", -1) + `"`
 		} else {
 			result += val
